@@ -449,8 +449,13 @@ fn r6(t: &mut Tape, prog: &mut Prog) -> bool {
 
 pub fn gen_case(t: &mut Tape) -> Case {
     let mut cfg = GenCfg::general();
-    cfg.bias = *t.pick(&[Bias::General, Bias::Frame, Bias::Sort]);
+    cfg.bias = *t.pick(&[Bias::General, Bias::Frame, Bias::Sort, Bias::Window, Bias::Sort]);
     cfg.max_steps = 6;
+    // a fifth of the bases begin with sort, take, windowed derive: whether the window sees the rows
+    // before or after the take only shows against a rewrite that separates the two
+    if t.chance(1, 5) {
+        cfg.script = vec![3, 4, 8];
+    }
     let mut base = c01::gen_case(t, cfg);
     base.target = "sqlite".into();
     let mut p = base.prog.clone();
